@@ -37,7 +37,18 @@ def _world(ctx, wrapper_case, cached_case, kind='OperatorDict'):
 
     def od_getitem(interp, me, idx):
         return W['entry_for'](idx) if 'entry_for' in W else Rec('item', me, idx)
+    def od_get(interp, me, args, kw):
+        # dict.get(key, default): the stored entry when the key is cached, else the default
+        interp.ctx.event('cache-test', args[0])
+        c = W['cached']
+        hit = interp.truth(c) if not isinstance(c, bool) else c
+        if hit:
+            ko = sym('cached_keys_out', truth=SBool(z3.Bool('cached_keys_out_nonempty')))
+            W['cached_entry'] = (ko, sym('cached_func'))
+            return W['cached_entry']
+        return args[1] if len(args) > 1 else kw.get('default')
     opdict = sym('operator_dict', on_contains=od_contains)
+    opdict.attrs['get'] = sym('operator_dict.get', callable_result=od_get)
     me = sym('self', attrs={'algebra': alg, 'operator_dict': opdict, 'codegen': sym('codegen'),
                             'codegen_symbolcls': sym('codegen_symbolcls'), 'name': sym('name')},
              isinstance_of=(kind,))
@@ -94,7 +105,7 @@ def vc_getitem(H, cls='OperatorDict'):
                            not gens and not others and not stores
                            and not _events(ctx, 'call', lambda e: 'multivector' in repr(e[1]) or e[1] is W['wrapper']))
                 ctx.oblige('C10: cached pattern -> the stored (keys_out, func) is returned',
-                           same(r, Rec('item', W['opdict'], keys_in)))
+                           same(r, Rec('item', W['opdict'], keys_in)) or ('cached_entry' in W and same(r, W['cached_entry'])))
                 return r
             ctx.oblige(f'C10: new pattern -> {gen_name} runs exactly once', len(gens) == 1 and not others)
             if len(gens) != 1:
